@@ -48,8 +48,30 @@ def stall_part(res, cfg, binary, rng):
     return bad
 
 
+def open_part(res):
+    """a client that attaches to, and a daemon that starts over, whatever a dead daemon left in the
+    file (every truncation length of a segment, partial headers, foreign content) must return"""
+    import random
+    from props import _files as F
+    results, _ = F.run_corpus(res, "C18", random.Random(res.seed * 97 + 18), 0)
+    bad = []
+    for r in results:
+        res.evaluations += 1
+        res.count("open-must-return:" + r["tag"].split("-")[0])
+        hung = [what for what, v in (("ShmReader::new", r["rust"]["O"]), ("ClockBoundClient::new_with_path", r["rust"]["K"]),
+                                     ("clockbound_open", r["c"]["K"]), ("ShmWriter::new + write", r["wrt"])) if "hang" in v]
+        if hung:
+            bad.append({"case": F.describe(r), "why": ["%s did not return within 10 s on this file: a client (or the restarted daemon) hangs on what a dead daemon left behind" % ", ".join(hung)]})
+    res.oblige("opening every file of the corpus returns (clients and daemon start-up): %d files" % len(results), not bad)
+    if bad:
+        res.violation({"property": "C18", "kind": "input", "case": bad[0], "others": [b["case"]["file"] for b in bad[1:6]],
+                       "predicate": "every client call, including attaching to the segment, returns after a bounded amount of work",
+                       "how_to_replay": "./check C16 --replay <this file>"})
+
+
 def run(res, proofs_ok, proofs_why):
     _shm.run_property("C18", res, proofs_ok, proofs_why, extra_part=stall_part)
+    open_part(res)
 
 
 def replay(res, path):
